@@ -1,6 +1,7 @@
 #!/bin/bash
-# verify a list of seeded ids (e.g. C12a C12b) sequentially (queues work on disjoint ids)
+# verify a list of seeded ids (e.g. C12a C06-2b) sequentially (queues work on disjoint ids)
 for m in "$@"; do
+  p=${m:0:3}
   t="tests/test_envs.py tests/test_utils.py"
   case $m in
     C10*|C11*|C12*|C13*|C14*) t="tests/test_utils.py tests/test_policy.py";;
@@ -8,5 +9,7 @@ for m in "$@"; do
     C16*|C20*) t="tests/test_utils.py tests/test_training.py -k reinforce";;
     C17*|C19*) t="tests/test_utils.py tests/test_tasks.py tests/test_envs.py";;
   esac
-  /venv/bin/python /verif/seeded_eval.py verify /tmp/wt/m-${m:0:3}/_seeded/${m:3:1} $m "$t"
+  if [[ $m == *-2* ]]; then src=/tmp/wt/m-$p/_seeded2/${m: -1}; else src=/tmp/wt/m-$p/_seeded/${m: -1}; fi
+  [ -f $src/patch.diff ] || src=/verif/seeded/$m
+  /venv/bin/python /verif/seeded_eval.py verify $src $m "$t"
 done
